@@ -1083,7 +1083,6 @@ neon_rule_loadupdb (OrcCompiler *compiler, void *user, OrcInstruction *insn)
   OrcVariable *dest = compiler->vars + insn->dest_args[0];
   unsigned int code = 0;
   int size = src->size << compiler->insn_shift;
-  ORC_ASSERT(src->ptr_register);	/* can ptr_register be 0 ? */
   int ptr_reg;
 
   /* FIXME this should be fixed at a higher level */
@@ -1091,6 +1090,7 @@ neon_rule_loadupdb (OrcCompiler *compiler, void *user, OrcInstruction *insn)
     ORC_COMPILER_ERROR(compiler, "loadX used with non src/dest");
     return;
   }
+  ORC_ASSERT(src->ptr_register);	/* can ptr_register be 0 ? */
 
   if (compiler->is_64bit) {
     if (src->ptr_offset) {
